@@ -31,3 +31,24 @@ func init() {
 	mut("C11", "(benign) V2FileContractRevision decoder via local alias", false, "",
 		Edit{"types/encoding.go", "func (rev *V2FileContractRevision) DecodeFrom(d *Decoder) {\n\trev.Parent.DecodeFrom(d)\n\trev.Revision.DecodeFrom(d)\n}", "func (rev *V2FileContractRevision) DecodeFrom(d *Decoder) {\n\tp := &rev.Parent\n\tp.DecodeFrom(d)\n\trev.Revision.DecodeFrom(d)\n}"})
 }
+
+func init() {
+	// ---- C08 ----
+	v := "consensus/validation.go"
+	mut("C08", "v2 maturity > becomes >=", true, "v2-output-maturity", Edit{v, "} else if sci.Parent.MaturityHeight > ms.base.childHeight() {", "} else if sci.Parent.MaturityHeight >= ms.base.childHeight() {"})
+	mut("C08", "v1 signature timelock > becomes >=", true, "v1-signature-timelock", Edit{v, "} else if sig.Timelock > ms.base.childHeight() {", "} else if sig.Timelock >= ms.base.childHeight() {"})
+	mut("C08", "expiration <= becomes <", true, "v2-expiration-height", Edit{v, "if ms.base.childHeight() <= fc.ExpirationHeight {", "if ms.base.childHeight() < fc.ExpirationHeight {"})
+	mut("C08", "v1 gate >= becomes >", true, "v1-require-height", Edit{v, "if ms.base.childHeight() >= ms.base.Network.HardforkV2.RequireHeight {", "if ms.base.childHeight() > ms.base.Network.HardforkV2.RequireHeight {"})
+	mut("C08", "v2 gate < becomes <=", true, "v2-allow-height", Edit{v, "if ms.base.childHeight() < ms.base.Network.HardforkV2.AllowHeight {", "if ms.base.childHeight() <= ms.base.Network.HardforkV2.AllowHeight {"})
+	mut("C08", "policy height >= becomes >", true, "v2-policy-height-lock", Edit{"types/policy.go", "if height >= uint64(p) {", "if height > uint64(p) {"})
+	mut("C08", "call site passes childHeight() to Verify", true, "v2-policy-height-lock", Edit{v, "sp.Policy.Verify(ms.base.Index.Height, ms.base.medianTimestamp(), sigHash, sp.Signatures, sp.Preimages); err != nil {", "sp.Policy.Verify(ms.base.childHeight(), ms.base.medianTimestamp(), sigHash, sp.Signatures, sp.Preimages); err != nil {"})
+	mut("C08", "MaturityHeight drops the delay", true, "definition|MaturityHeight", Edit{"consensus/state.go", "return s.childHeight() + s.Network.MaturityDelay", "return s.childHeight()"})
+	mut("C08", "v2 storage proof drops the ProofIndex height guard", true, "v2-proof-index-height", Edit{v, "} else if sp.ProofIndex.ChainIndex.Height != fc.ProofHeight {", "} else if false && sp.ProofIndex.ChainIndex.Height != fc.ProofHeight {"})
+	mut("C08", "revision checks the parent's proof height only via the element (ignores in-block revision)", true, "v2-revision-current-proof-height",
+		Edit{v, "case cur.ProofHeight < ms.base.childHeight():\n\t\t\treturn fmt.Errorf(\"revises contract after its proof window has opened\")", "case fce.V2FileContract.ProofHeight < ms.base.childHeight():\n\t\t\treturn fmt.Errorf(\"revises contract after its proof window has opened\")"},
+		Edit{v, "} else if cur.ProofHeight < ms.base.childHeight() {\n\t\t\treturn fmt.Errorf(\"file contract revision %v cannot be applied to contract after proof height (%v)\", i, cur.ProofHeight)\n\t\t} else if", "} else if cur.ProofHeight == 0 && i < 0 {\n\t\t\treturn nil\n\t\t} else if"})
+	mut("C08", "(benign) maturity guard rewritten with negation", false, "", Edit{v, "} else if sci.Parent.MaturityHeight > ms.base.childHeight() {", "} else if !(ms.base.childHeight() >= sci.Parent.MaturityHeight) {"})
+	mut("C08", "(benign) v1 window guards reordered", false, "",
+		Edit{v, "\t\tif fc.WindowStart < ms.base.childHeight() {\n\t\t\treturn fmt.Errorf(\"file contract %v has window that starts in the past\", i)\n\t\t} else if fc.WindowEnd <= fc.WindowStart {\n\t\t\treturn fmt.Errorf(\"file contract %v has window that ends before it begins\", i)\n\t\t}",
+			"\t\tif fc.WindowEnd <= fc.WindowStart {\n\t\t\treturn fmt.Errorf(\"file contract %v has window that ends before it begins\", i)\n\t\t} else if ch := ms.base.childHeight(); fc.WindowStart < ch {\n\t\t\treturn fmt.Errorf(\"file contract %v has window that starts in the past\", i)\n\t\t}"})
+}
